@@ -7,7 +7,7 @@ R-FRESHID (C02, C03)  two sector ids taken from the length of the same table are
 import re
 
 from cg import op_local
-from core import Finding, RuleResult, view
+from core import Finding, RuleResult, view, numeric
 from prov import Prov
 
 
@@ -56,7 +56,7 @@ def cutoff(ctx):
 
 # ---------------------------------------------------------------------------
 def unit(ctx):
-    res = RuleResult("R-UNIT", "compare_names orders by length in UTF-16 code units: every usize length key it compares is a count over encode_utf16(), or a byte length taken under is_ascii() of both names")
+    res = RuleResult("R-UNIT", "compare_names orders by length in UTF-16 code units: every usize length key it compares is a count over encode_utf16() (or a sum of char::len_utf16), or a byte length taken under is_ascii() of both names")
     f = ctx.fx.fns.get(ctx.table("orient").get("comparator", "internal::path::compare_names"))
     n = 0
     if f is None:
@@ -74,7 +74,7 @@ def unit(ctx):
         atoms = g.atoms_at(("t", bb))
         bad = None
         for o in ops:
-            if "encode_utf16(" in o:
+            if "encode_utf16(" in o or re.search(r"sum\(.*map\(.*chars\(.*len_utf16", o):
                 continue
             m = re.match(r"^len\((param:\w+)\)$", o)
             if m and any(re.search(r"is_ascii\(%s\)" % re.escape(m.group(1)), a) and " is not " not in a and not a.startswith("(Not") and "is false" not in a for a in atoms):
@@ -89,7 +89,7 @@ def unit(ctx):
     for b, k, val, vals in _edges(f):
         for a in g.describe_all(b, val, vals):
             m = re.match(r"^\((Lt|Le|Gt|Ge|Eq|Ne)\((.*)\)\)$", a)
-            if m and ("count(" in a or "len(" in a) and "chars(" in a and "encode_utf16(" not in a:
+            if m and ("count(" in a or "len(" in a) and "chars(" in a and "encode_utf16(" not in a and "len_utf16" not in a:
                 n += 1
                 res.fail(Finding("R-UNIT", "R-UNIT/%s/length-key" % f.path, "length test %s counts characters, not UTF-16 code units" % a[:120], f, f.blocks[b]["term"]["span"]))
     res.floor("length-key comparisons", n, ctx.table("floors").get("unit_sites", 0))
@@ -1434,6 +1434,188 @@ def slotid(pid):
     return run
 
 
+
+def selflink(pid):
+    """R-SELFLINK: a chain link is stored in the PREVIOUS sector of the chain and names the NEXT one - never the sector
+    it is stored in.  The DIFAT chain keeps its link in the last word of each DIFAT sector: the sector written is the
+    last element of the list as it was BEFORE the new sector was appended to it.  `list.push(new); list[len - 1]` (or
+    `.last()`) reads the new sector back: the new sector then points at itself, the previous one keeps END_OF_CHAIN,
+    and every FAT sector listed in the new DIFAT sector is lost on reopening."""
+    def run(ctx):
+        from prov import _split_top, prov_eq
+        res = RuleResult("R-SELFLINK(%s)" % pid, "no write of a sector id V into a sector S (through seek_within_sector) where S is V itself or the last element of a list read after V was pushed onto it")
+        n = 0
+        for f in ctx.fx.fns.values():
+            v = view(ctx, f)
+            pr = Prov(f)
+            for c in v.calls.values():
+                if not c.name.endswith("write_le_u32") or len(c.term["args"]) < 2:
+                    continue
+                h = pr.operand(c.term["args"][0])
+                m = re.match(r"^ok\((?:\w+::)*Sectors::seek_within_sector\((.*)\)\)$", h)
+                if not m:
+                    continue
+                ps = _split_top(m.group(1))
+                if len(ps) != 3:
+                    continue
+                n += 1
+                S, V = ps[1], pr.operand(c.term["args"][1])
+                bad = None
+                if prov_eq(S, V) and not re.match(r"^const:", V):
+                    bad = "the sector written is the very id stored in it"
+                else:
+                    mw = re.match(r"^(?:[\w<>, ]*::)*index\((.*),Sub\(len\((.*)\),const:1\)\)$", S) or re.match(r"^ok\((?:<impl \[T\]>|Vec|\[T\])::last\((.*)\)\)$", S)
+                    W = mw.group(1) if mw and (mw.lastindex == 1 or mw.group(1) == mw.group(2)) else None
+                    if W:
+                        pushes = [c2 for c2 in v.calls.values() if c2.name.split("::")[-1] == "push" and len(c2.term["args"]) == 2 and pr.operand(c2.term["args"][0]) == W and prov_eq(pr.operand(c2.term["args"][1]), V)]
+                        reads = [c2 for c2 in v.calls.values() if c2.name.split("::")[-1] in ("index", "last") and c2.term["args"] and pr.operand(c2.term["args"][0]) == W and (c2.name.split("::")[-1] == "last" or re.match(r"^Sub\(len\(.*\),const:1\)$", pr.operand(c2.term["args"][1])))]
+                        if pushes and reads:
+                            oks = set()
+                            for p_ in pushes:
+                                oks.update(v.ok_nodes(p_.bb) or [("t", p_.bb)])
+                            reach = v.pg.reach([v.pg.entry()], oks)
+                            if all(("t", r_.bb) not in reach for r_ in reads):
+                                bad = "the sector written is the last element of %s read AFTER the new id was pushed onto it (line %d)" % (W.split(".")[-1], pushes[0].line)
+                if bad:
+                    res.fail(Finding(res.rule, "R-SELFLINK/%s/%s" % (f.path, re.sub(r"param:\w+\.", "", S)[:60]), "%s: %s - the new sector links to itself and the old end of the chain is never updated" % (f.path.split("::")[-1], bad), f, c.term["span"]))
+                else:
+                    res.ok({"function": f.path, "line": c.line, "sector": S[:60], "value": V[:40]})
+        res.floor("words written into sectors located by id", n, ctx.table("floors").get("selflink_sites", 0))
+        return res
+    return run
+
+
+def setlennoop(pid):
+    """R-SETLENNOOP: Stream::set_len may skip the resize only when the requested size equals the HANDLE's length
+    (total_len, which counts the bytes still in the handle's buffer).  Compared with anything else - the length in
+    the directory entry lags behind while appended bytes are buffered - a call that should cut those bytes off is
+    ignored, len() keeps the old value and the bytes are flushed into the stream later."""
+    def run(ctx):
+        res = RuleResult("R-SETLENNOOP(%s)" % pid, "every Ok return of Stream::set_len that does not pass resize_stream is behind `size == self.total_len`")
+        n = 0
+        for f in ctx.fx.fns.values():
+            if not re.search(r"internal::stream::Stream::<F>::set_len$", f.path):
+                continue
+            v = view(ctx, f)
+            pg = v.pg
+            g = _guards(ctx, f)
+            rs = [c for c in v.calls.values() if c.name.endswith("resize_stream")]
+            n += 1
+            if not rs:
+                res.fail(Finding(res.rule, "R-SETLENNOOP/no-resize", "Stream::set_len does not call resize_stream", f))
+                continue
+            stop = set(v.all_err_nodes())
+            for c in rs:
+                stop.update(v.ok_nodes(c.bb) or [("t", c.bb)])
+            for bb, blk in enumerate(f.blocks):
+                if blk["cleanup"] or blk["term"]["t"] != "switch":
+                    continue
+                t = blk["term"]
+                vals = [str(x) for x, _ in t["arms"]] + ["otherwise"]
+                tg = [b for _, b in t["arms"]] + [t["otherwise"]]
+                for val, tgt in zip(vals, tg):
+                    if any(re.match(r"^\(Eq\((param:size,param:self\.total_len|param:self\.total_len,param:size)\)\)$", a) for a in g.describe_all(bb, val, vals)):
+                        stop.update(pg.edge_node(bb, tgt))
+            reach = pg.reach([pg.entry()], stop)
+            rets = [x for x in reach if x in set(pg.returns())]
+            if rets:
+                res.fail(Finding(res.rule, "R-SETLENNOOP/%s/skips-resize" % f.path, "Stream::set_len can return Ok without resizing although the requested size was not found equal to the handle's own length (total_len): a size that happens to equal some other length - the directory entry's, which does not count buffered bytes - is silently ignored", f, f.blocks[rets[0][1]]["term"]["span"]))
+            else:
+                res.ok({"function": f.path, "skips_only_if": "size == self.total_len"}, nontrivial=True)
+        res.floor("set_len implementations", n, ctx.table("floors").get("setlennoop_sites", 0))
+        return res
+    return run
+
+
+def allblack(pid):
+    """R-ALLBLACK: the library does not balance its sibling trees; it keeps them valid red-black trees in the only way
+    that needs no rotations: every entry it creates is black (MS-CFB 2.6.4: no red node has a red child - a tree
+    without red nodes cannot break that).  A store of Color::Red into an allocated entry needs the whole red-black
+    discipline (recolouring on insertion AND on every re-parenting in removal) to stay valid; nothing here checks
+    that, so the store itself is reported."""
+    def run(ctx):
+        res = RuleResult("R-ALLBLACK(%s)" % pid, "no store into the `color` field of a directory entry, and no DirEntry built outside unallocated() / read_from, has a value other than Color::Black")
+        n = 0
+        for f in ctx.fx.fns.values():
+            if f.path.endswith("DirEntry::unallocated") or f.path.endswith("DirEntry::read_from"):
+                continue
+            pr = None
+            for bb, blk in enumerate(f.blocks):
+                if blk["cleanup"]:
+                    continue
+                for i, st in enumerate(blk["stmts"]):
+                    if st["s"] != "assign":
+                        continue
+                    val = None
+                    fl = [e for e in st["place"]["proj"] if e["p"] == "field"]
+                    if fl and fl[-1]["name"] == "color" and "DirEntry" in fl[-1].get("owner", ""):
+                        pr = pr or Prov(f)
+                        val = pr._def((bb, i, st), 0, ())
+                    elif st["rv"]["r"] == "aggregate" and st["rv"].get("adt", "").endswith("direntry::DirEntry"):
+                        pr = pr or Prov(f)
+                        got = dict(zip(st["rv"].get("fields", []), [pr.operand(o) for o in st["rv"].get("ops", [])]))
+                        val = got.get("color")
+                        if val is not None and re.search(r"unallocated\(\)\.color$", val):
+                            val = None      # `..DirEntry::unallocated()` with the colour overridden is judged by R-CTORVAL
+                    if val is None:
+                        continue
+                    n += 1
+                    if re.match(r"^(const:)?Color::Black(\(\))?$", val) or re.search(r"\.color$", val):     # (a copy of an entry keeps its colour)
+                        res.ok({"function": f.path, "color": val})
+                    else:
+                        res.fail(Finding(res.rule, "R-ALLBLACK/%s/%s" % (f.path, val[:40]), "%s stores %s as the colour of a directory entry: with red entries in the tree every insertion and every re-parenting in remove_dir_entry has to keep 'no red entry has a red child', which this library (it never rotates or recolours) does not do" % (f.path.split("::")[-1], val[:60]), f, st["span"]))
+        res.floor("colour stores", n, ctx.table("floors").get("allblack_sites", 0))
+        return res
+    return run
+
+
+def stalechain(pid):
+    """R-STALECHAIN: a Chain / MiniChain object caches the ids of its sectors; set_len appends to that cache when it
+    grows the chain but does not shorten it when it cuts the chain.  A sector count or length read from the same
+    object after a set_len that may shrink is the OLD count - written into a header word (the MiniFAT / directory
+    sector count) it makes the image disagree with its own chains.  The count has to come from a chain opened again,
+    or the set_len has to be known to grow (a dominating `old length < new length`)."""
+    def run(ctx):
+        res = RuleResult("R-STALECHAIN(%s)" % pid, "no num_sectors() / len() is read from a chain object after a set_len on that object that may have shortened the chain")
+        n = 0
+        for f in ctx.fx.fns.values():
+            v = view(ctx, f)
+            pr = Prov(f)
+            sets = [c for c in v.calls.values() if re.search(r"(Chain|MiniChain)::<[^>]*>::set_len$", c.name) and c.term["args"]]
+            if not sets:
+                continue
+            g = _guards(ctx, f)
+            for c in sets:
+                n += 1
+                recv = pr.operand(c.term["args"][0])
+                newlen = pr.operand(c.term["args"][1]) if len(c.term["args"]) > 1 else ""
+                atoms = g.atoms_at(("t", c.bb))
+                from prov import _split_top
+                grows = False
+                for a in atoms:
+                    m_ = re.match(r"^\((Lt|Le|Gt|Ge)\((.*)\)\)$", a)
+                    ps_ = _split_top(m_.group(2)) if m_ else []
+                    if len(ps_) != 2:
+                        continue
+                    small, big = (ps_[0], ps_[1]) if m_.group(1) in ("Lt", "Le") else (ps_[1], ps_[0])
+                    has = lambda x: bool(re.search(r"(Chain::len|MiniChain::len|num_sectors)\(", x))
+                    if has(small) and not has(big):
+                        grows = True
+                later = []
+                reach = v.pg.reach(v.ok_nodes(c.bb) or list(v.pg.succ[("t", c.bb)]), set())
+                for c2 in v.calls.values():
+                    if c2 is c or ("t", c2.bb) not in reach or not c2.term["args"]:
+                        continue
+                    if re.search(r"(Chain|MiniChain)::<[^>]*>::(num_sectors|len)$", c2.name) and pr.operand(c2.term["args"][0]) == recv:
+                        later.append(c2)
+                if later and not grows:
+                    res.fail(Finding(res.rule, "R-STALECHAIN/%s/%s" % (f.path, later[0].name.split("::")[-1]), "%s reads %s() from the chain object it has just cut with set_len(%s) (line %d): the object still lists the sectors it had before, so the value is the old one" % (f.path.split("::")[-1], later[0].name.split("::")[-1], newlen[:50], c.line), f, later[0].term["span"]))
+                else:
+                    res.ok({"function": f.path, "set_len_line": c.line, "later_reads_of_the_same_object": len(later), "known_to_grow": grows})
+        res.floor("set_len calls on chain objects", n, ctx.table("floors").get("stalechain_sites", 0))
+        return res
+    return run
+
 def keepcount(pid):
     """R-KEEPCOUNT: shrinking a chain to N sectors frees everything after sector_ids[N - 1].  The call that cuts the
     chain sits under the test `N < sector_ids.len()`; its argument must be the id at index N - 1 of the same list.
@@ -1548,7 +1730,7 @@ def seekbound(pid):
                             p_, d_ = ps
                             ok = any(a in ("(Le(%s,Sub(param:self.total_len,%s)))" % (d_, p_), "(Le(%s,Sub(param:self.total_len,%s)))" % (p_, d_), "(Le(cast(%s),Sub(param:self.total_len,%s)))" % (d_, p_)) for a in atoms) or \
                                 any(re.match(r"^\(Le\((cast\()?%s\)?,Sub\(param:self\.total_len,%s\)\)\)$" % (re.escape(d_), re.escape(p_)), a) for a in atoms)
-                    elif re.match(r"^Sub\(", alt):
+                    elif re.match(r"^Sub\(|^ok\(<impl u64>::checked_sub\(", alt):
                         ok = True       # a difference of two positions within the stream
                     else:
                         ok = any(re.match(r"^\(Le\(%s,param:self\.total_len\)\)$" % re.escape(alt), a) for a in atoms)
@@ -1633,8 +1815,16 @@ def fmtconst(pid):
                     continue
                 for i, st in enumerate(blk["stmts"]):
                     if st["s"] == "assign" and st["place"]["local"] == 0 and not st["place"]["proj"]:
-                        for a in g.atoms_at(("s", bb, i)):
-                            got.setdefault(a, set()).add(pr._def((bb, i, st), 0, ()))
+                        here = set(g.atoms_at(("s", bb, i)))
+                        # `if matches!(self, V3) {..} else {..}`: the else branch of a test on an enum whose other
+                        # variants are all excluded is the remaining variant
+                        for c in want:
+                            m_ = re.match(r"(.+) is (\S+)$", c)
+                            others = [o for o in want if o != c and re.match(r"(.+) is (\S+)$", o) and o.split(" is ")[0] == (m_.group(1) if m_ else None)]
+                            if m_ and others and all((o.replace(" is ", " is not ") in here) for o in others):
+                                here.add(c)
+                        for a in here:
+                            got.setdefault(numeric(a), set()).add(numeric(pr._def((bb, i, st), 0, ())))
             for cond, val in want.items():
                 if cond not in got:
                     continue
